@@ -37,6 +37,9 @@ type Config struct {
 	SkipGlob        string      `json:"skip_glob,omitempty"`
 	UseGitignore    bool        `json:"use_gitignore,omitempty"`
 	PathsToExtract  []string    `json:"paths_to_extract,omitempty"` // root-relative
+	// ExactInodeLimit (C09): the fault runs use MaxInodes = the number of inodes the fault-free run
+	// visited, i.e. a limit the tree exactly fits in: a contained fault must not push the scan over it.
+	ExactInodeLimit bool `json:"exact_inode_limit,omitempty"`
 	// PathsRoot is the index of the root under which DirsToSkip and PathsToExtract are spelled
 	// as absolute paths when that root has a Path (default: the first root).
 	PathsRoot int `json:"paths_root,omitempty"`
